@@ -75,7 +75,8 @@ def shards(tier):
         # bounded sub-tiers first, so that the random search gets whatever budget is left
         out += [{'kind': 'sweep', 'dims': d, 'part': k, 'parts': 8} for d in ([2, 2], [2, 3]) for k in range(8)]
         out += [{'kind': 'fuzz', 'seconds': 300, 'corpus': c} for c in ('empty', 'vt')]
-    out += [{'kind': 'rand', 'n': n} for _ in range(16)]
+    out += [{'kind': 'rand', 'n': n} for _ in range(14)]
+    out += [{'kind': 'vt', 'n': 30 if tier == 'quick' else 1500} for _ in range(2)]
     return out
 
 
@@ -318,6 +319,53 @@ def body(case, col):
         check_case(case, col)
 
 
+# ---------------------------------------------------------------------------
+# recorded terminal sessions of the repository, under generated chunkings
+
+VT_FILES = ['torturet.vt', 'bambi.vt', 'globe.vt', 'tetris.data']
+
+
+@st.composite
+def vt_cases(draw):
+    name = draw(st.sampled_from(VT_FILES))
+    start = draw(st.integers(0, 20)) * 500
+    length = draw(st.sampled_from([200, 1000, 4000]))
+    ncuts = draw(st.integers(1, 12))
+    cuts = sorted(draw(st.lists(st.integers(1, length - 1), min_size=ncuts, max_size=ncuts)))
+    return {'file': name, 'start': start, 'length': length, 'cuts': cuts, 'as_bytes': draw(st.booleans()),
+            'rows': draw(st.sampled_from([24, 24, 5])), 'cols': draw(st.sampled_from([80, 80, 7]))}
+
+
+def check_vt(case, col=None):
+    path = os.path.join(os.environ.get('VERIF_REPO', '/repo'), 'tests', case['file'])
+    with open(path, 'rb') as f:
+        raw = f.read()[case['start']:case['start'] + case['length']]
+    if not raw:
+        if col is not None:
+            col.discarded += 1
+        return
+    data = raw if case['as_bytes'] else raw.decode('latin-1')
+    rows, cols = case['rows'], case['cols']
+    t1 = new_term(rows, cols, 'latin-1')
+    with guard('ANSI.write(recorded session %s)' % case['file']):
+        t1.write(data)
+    check_shape(t1, rows, cols, case['file'])
+    whole = snapshot(t1)
+    t2 = new_term(rows, cols, 'latin-1')
+    pts = [0] + [c for c in case['cuts'] if c < len(data)] + [len(data)]
+    with guard('ANSI.write(pieces of %s)' % case['file']):
+        for i in range(len(pts) - 1):
+            t2.write(data[pts[i]:pts[i + 1]])
+    s2 = snapshot(t2)
+    if s2 != whole:
+        raise Violation('chunking', '%s[%d:%d] fed in pieces cut at %r differs from fed at once (cursor %r vs %r, state %r vs %r)'
+                        % (case['file'], case['start'], case['start'] + case['length'], case['cuts'], s2['cur'], whole['cur'],
+                           s2['state'], whole['state']))
+    if col is not None:
+        col.label('recorded-session')
+        col.case(case, True)
+
+
 def run_shard(spec, seed, idx, deadline_ts):
     col = Collector()
     cwd = os.getcwd()
@@ -328,6 +376,11 @@ def run_shard(spec, seed, idx, deadline_ts):
             run_sweep(spec, col, deadline_ts)
         elif spec['kind'] == 'fuzz':
             run_fuzz(spec, col, deadline_ts)
+        elif spec['kind'] == 'vt':
+            def vbody(case, c):
+                with case_watchdog(120, 'C18 recorded session'):
+                    check_vt(case, c)
+            run_batches(vbody, vt_cases(), spec['n'], seed * 1000 + idx, col, deadline_ts=deadline_ts)
         else:
             run_batches(body, cases(), spec['n'], seed * 1000 + idx, col, deadline_ts=deadline_ts)
     finally:
@@ -342,7 +395,10 @@ def replay(case, spec=None):
     tmp = tempfile.mkdtemp(prefix='c18_')
     os.chdir(tmp)
     try:
-        check_case(case)
+        if 'file' in case:
+            check_vt(case)
+        else:
+            check_case(case)
     finally:
         os.chdir(cwd)
         import shutil
